@@ -245,8 +245,52 @@ def test_alphabet():
     check("nan equals nan", C._rows_equal([(float("nan"),)], [(float("nan"),)], False), True)
 
 
+# ---- 7. histories (same text re-executed / caller mutates its parameters): how they are written -------------------------------
+def test_histories():
+    import checks.c06 as C
+
+    hs = C.HISTORIES
+    check("unique history ids", len({h["hid"] for h in hs}), len(hs))
+    check("at least 60 histories", len(hs) >= 60, True)
+    forms = {h["cls"] for h in hs}
+    for f in ("hist:params_retype", "hist:use_schema", "hist:use_database", "hist:variable", "hist:alter_add_column", "hist:alter_drop_column",
+              "hist:alter_rename_column", "hist:replace_table", "hist:replace_view", "hist:mutate_params", "hist:mutate_params_dml",
+              "hist:mutate_params_pyformat", "hist:mutate_params_describe", "hist:params_retype_describe", "hist:use_schema_describe"):
+        check(f"history class {f}", f in forms, True)
+    for h in hs:
+        execs = [s for s in h["steps"] if s[0] in ("x", "x-", "d")]
+        check(f"{h['hid']}: ends on the cursor under test", h["steps"][-1][0] in ("x", "x-", "d", "mut"), True)
+        if h["cls"].startswith(("hist:params_retype", "hist:use_", "hist:alter_", "hist:replace_", "hist:variable")):
+            # the point of these: the final statement text was executed / described before on the same cursor
+            check(f"{h['hid']}: same text twice", sum(1 for s in execs if s[1] == execs[-1][1]) >= 2, True)
+        if h["cls"].startswith("hist:mutate_"):
+            check(f"{h['hid']}: has a mutation after an execute", any(s[0] == "mut" for s in h["steps"]) and h["steps"][0][0] != "mut", True)
+            muted = [s for s in execs if s[0] != "d"][-1][2]
+            check(f"{h['hid']}: mutable parameter object", isinstance(muted, (list, dict)), True)
+        if h["names"]:
+            check(f"{h['hid']}: ncols", h["ncols"], len(h["names"]))
+        if h["decl"]:
+            check(f"{h['hid']}: decl per column", len(h["decl"]), len(h["names"]))
+    # the model's expectation of a few final statements, by hand (FIXTURE_HIST: s2.t (a varchar, b number(10,2), c int); db2.s1.t (x float))
+    check("use_schema expectation", (C.BY_HID["use_schema_x-"]["names"], C.BY_HID["use_schema_x-"]["decl"]), (["A", "B", "C"], ["VARCHAR", "NUMBER(10,2)", "INT"]))
+    check("use_database expectation", (C.BY_HID["use_database_x-"]["names"], C.BY_HID["use_database_x-"]["decl"]), (["X"], ["FLOAT"]))
+    check("add_column expectation", C.BY_HID["add_column_o"]["names"], ["A", "B", "C"])
+    check("rename_column expectation", C.BY_HID["rename_column_o"]["names"], ["A", "C"])
+    check("fixture tables match", [q for q in C.FIXTURE_HIST if q.startswith("create table")],
+          ["create table s2.t (a varchar, b number(10,2), c int)", "create table db2.s1.t (x float)"])
+    # every way the intermediate statement is executed occurs
+    check("intermediate on same cursor unread / read / other cursor", {h["steps"][1][0] for h in hs if h["cls"] == "hist:use_schema" and len(h["steps"]) == 3} >= {"x-", "x", "o"}, True)
+    # mutation operator
+    for op, start, exp in [(("mut", "set0", "one"), [1], ["one"]), (("mut", "append", 2), [1], [1, 2]), (("mut", "pop"), [1], []), (("mut", "clear"), [1, 2], []),
+                           (("mut", "setkey", "v", "one"), {"v": 1}, {"v": "one"}), (("mut", "clear"), {"v": 1}, {})]:
+        C._apply_mut(start, op)
+        check(f"mutation {op}", start, exp)
+    ops = {s[1] for h in hs for s in h["steps"] if s[0] == "mut"}
+    check("mutation operators used", ops, {"set0", "setkey", "append", "pop", "clear"})
+
+
 def main():
-    for f in (test_codes, test_declared, test_values, test_names, test_fetch_model, test_alphabet):
+    for f in (test_codes, test_declared, test_values, test_names, test_fetch_model, test_alphabet, test_histories):
         f()
     if FAILS:
         print(f"FAILED {len(FAILS)} of {N[0]} checks")
